@@ -64,6 +64,9 @@ def corpus(tier):
     svc('NoSerde', [m('one', [('a', 'u8')], 'u8'), m('two', [('a', 'u8'), ('b', 'u8')], 'u8')], attr='(derive_serde = false)')
     svc('Derives', [m('one', [('a', 'u8')], 'u8'), m('other', [('a', 'String')], 'String')], attr='(derive = [Clone, PartialEq])')
     svc('Attrs', [m('documented', [('a', 'u8')], 'u8', attrs='/// doc comment\n        #[allow(unused)]'), m('second', [('a', 'bool'), ('b', 'bool')], 'bool')], trait_attrs='/// A documented service.')
+    # argument names that collide with identifiers the generated glue uses internally
+    svc('Shadow', [m('forward', [('context', 'tarpc::context::Context'), ('n', 'u8')], 'u64'), m('names', [('request', 'u8'), ('req', 'u16'), ('resp', 'u32'), ('msg', 'u64')], 'u64'),
+                   m('more', [('stub', 'u8'), ('service', 'u16'), ('result', 'u32'), ('new_client', 'u64')], 'u64')])
     svc('Six', [m('m%d' % i, [('p%d' % j, 'u32') for j in range(i % 5)], 'u32') for i in range(6)])
     if tier == 'thorough':
         tys = ['u8', 'String', 'bool', 'Vec<u8>']
@@ -115,18 +118,22 @@ def validate(R, F, P, idx, s):
     if req is None or resp is None:
         R.ob('C17.enum', key('request/response enums exist'), False, 'the expansion defines <Service>Request and <Service>Response', [])
         return 0
-    R.ob('C17.enum', key('request variants'), [v['name'] for v in req['variants']] == want_variants, 'the request enum has one variant per method, in declaration order, named by the camel-cased method',
-         [], 'got %s want %s' % ([v['name'] for v in req['variants']], want_variants))
+    R.ob('C17.enum', key('request variants'), sorted(v['name'] for v in req['variants']) == sorted(want_variants) and len(set(want_variants)) == len(want_variants),
+         'the request enum has exactly one variant per method, named by the camel-cased method', [], 'got %s want %s' % ([v['name'] for v in req['variants']], want_variants))
     # (the response enum keeps a variant for cfg'd-out methods: harmless, they are never constructed)
     rnames = [v['name'] for v in resp['variants']]
     all_variants = [snake_to_camel(unraw(me['name'])) for me in s['methods']]
-    R.ob('C17.enum', key('response variants'), rnames in (want_variants, all_variants), 'the response enum has one variant per method, in declaration order', [], 'got %s' % rnames)
+    R.ob('C17.enum', key('response variants'), sorted(rnames) in (sorted(want_variants), sorted(all_variants)), 'the response enum has one variant per method', [], 'got %s' % rnames)
     for me in live:
         V = snake_to_camel(unraw(me['name']))
         rv_ = [v for v in resp['variants'] if v['name'] == V]
         okt = len(rv_) == 1 and len(rv_[0]['fields']) == 1 and _ty_eq(rv_[0]['fields'][0][1], me['ret'] or '()')
         R.ob('C17.enum', key('response payload type', me), okt, 'the response variant of a method carries its return type', [], 'got %s want %s' % ([f[1] for v in rv_ for f in v['fields']], me['ret'] or '()'))
-    for me, v in zip(live, req['variants']):
+    by_name = {v['name']: v for v in req['variants']}
+    for me in live:
+        v = by_name.get(snake_to_camel(unraw(me['name'])))
+        if v is None:
+            continue
         got = [(f[0], f[1]) for f in v['fields']]
         want = [(unraw(a[0]), a[1]) for a in me['args']]
         okf = [g[0] for g in got] == [w[0] for w in want] and all(g[1].split('::')[-1].replace(' ', '') == w[1].split('::')[-1].replace(' ', '') or _ty_eq(g[1], w[1]) for g, w in zip(got, want))
@@ -249,8 +256,11 @@ def validate(R, F, P, idx, s):
                 for vi in range(len(live)):
                     b = arms.get(vi, t['otherwise'])
                     got.append(_arm_str(f, b))
-        want_a = ['%s.%s' % (svc, me['name']) for me in live]
-        want_b = ['%s.%s' % (svc, unraw(me['name'])) for me in live]
+        order = [v['name'] for v in req['variants']]
+        by_variant = {snake_to_camel(unraw(me['name'])): me for me in live}
+        in_order = [by_variant[n] for n in order if n in by_variant]
+        want_a = ['%s.%s' % (svc, me['name']) for me in in_order]
+        want_b = ['%s.%s' % (svc, unraw(me['name'])) for me in in_order]
         R.ob('C17.name', key('request names'), got == want_a or got == want_b, 'name() maps each variant to "<Service>.<method>" of its own method', [f.loc(f.d)], 'got %s' % got)
         if got != want_b and got == want_a:
             R.note('raw identifiers are rendered with their r# prefix in request names: %s' % [g for g, w in zip(got, want_b) if g != w])
